@@ -27,7 +27,7 @@ def _width(S, x):
     return WIDTHS.get(t["s"]) if t and t.get("s") in WIDTHS else None
 
 
-def ev(S, F, x, asg, tabs=None):
+def _ev_impl(S, F, x, asg, tabs=None):
     """asg: {'params': {i: value}, 'subst': {normalised expr: value}, 'calls': {path: fn(*values)}, plus rule-specific keys}"""
     k = x[0]
     sub = asg.get("subst")
@@ -423,6 +423,19 @@ def ev(S, F, x, asg, tabs=None):
         if hook is not None:
             return hook(ev(S, F, x[1], asg, tabs))
     raise Unknown(sym.fmt(n(x))[:80])
+
+
+def ev(S, F, x, asg, tabs=None):
+    """Evaluate x under asg.  Anything the evaluator was not built for (an unexpected value shape inside a handler, an index
+    out of a tuple, ...) is reported as Unknown -- the rules treat that as 'cannot evaluate', never as a result."""
+    try:
+        return _ev_impl(S, F, x, asg, tabs)
+    except (Unknown, Panics):
+        raise
+    except RecursionError:
+        raise
+    except (TypeError, IndexError, KeyError, ValueError, AttributeError, ZeroDivisionError) as ex:
+        raise Unknown("not evaluable here (%s: %s)" % (type(ex).__name__, str(ex)[:80]))
 
 
 def select(S, F, paths, asg, tabs=None):
